@@ -251,9 +251,12 @@ func (fr *Frame) modularCall(ins ssa.Instruction, fn *ssa.Function, fc *FuncCont
 }
 
 func (fx *FnCtx) tryEval(e Expr, env map[string]SVal, st, pre *State) (t Term, ok bool) {
+	savedQuant := fx.s.inQuant
 	defer func() {
 		if r := recover(); r != nil {
-			if ue, isU := r.(*UnsupportedError); isU && (strings.Contains(ue.msg, "athead()") || strings.Contains(ue.msg, "atcall()")) {
+			fx.s.inQuant = savedQuant
+			if ue, isU := r.(*UnsupportedError); isU && (strings.Contains(ue.msg, "athead()") || strings.Contains(ue.msg, "atcall()") || strings.Contains(ue.msg, "unknown identifier")) {
+				fx.assump["a postcondition of a callee that refers to the callee's local state is not visible to its callers: "+ue.msg] = true
 				ok = false
 				return
 			}
